@@ -336,7 +336,7 @@ def run(report, tier):
             report.bounds["decimal"] = "all reals satisfying the precondition; every ordered unit pair of every type with reference unit (convert, compare, +, -, /) and every operand unit pair of the 34 derived operators"
             cands = pool.run(report, task, tasks)
             pool.cross_check(report)
-            E.native_confirm(report, "C18", cands, desc, oracle, probes=variants, max_groups=60)
+            E.native_confirm(report, "C18", cands, desc, oracle, probes=variants, max_groups=60, by_role=True, per_group=12)
             fut.result()
     finally:
         pool.close()
